@@ -20,8 +20,8 @@ def encoded_functions():
     return [S.ltf_plan, S.lpsd_plan, S.vectorized_ltf_plan, S.new_ltf_plan, A.SpectrumAnalyzer.plan]
 
 
-def ob_ltf(W, sched, part, bound=12):
-    return SC.ob_ltf(W, sched, part, bound)
+def ob_ltf(W, sched, part, bound=12, prior=False):
+    return SC.ob_ltf(W, sched, part, bound, prior)
 
 
 def ob_vec(W, part, fork_ifs=False, prior=False):
@@ -49,6 +49,9 @@ def obligations(tier):
         split(obs, "%s/seg-generic" % sched, "ob_ltf", {"sched": sched, "part": "seg-generic"}, GROUPS, timeout=to)
         b = 12 if tier == "quick" else 24
         split(obs, "%s/seg-N%d" % (sched, b), "ob_ltf", {"sched": sched, "part": "seg", "bound": b}, GROUPS, timeout=60 if tier == "quick" else 900, weight=10)
+        # after an earlier plan for another record in the same process (module-level state must not leak into this one)
+        split(obs, "%s/step-after-prior-plan" % sched, "ob_ltf", {"sched": sched, "part": "step", "prior": True}, GROUPS[1:2], timeout=to, fork=True, max_paths=32)
+        split(obs, "%s/seg-N%d-after-prior-plan" % (sched, b), "ob_ltf", {"sched": sched, "part": "seg", "bound": b, "prior": True}, [GROUPS[1], GROUPS[4]], timeout=60 if tier == "quick" else 900, weight=10, fork=True, max_paths=32)
     split(obs, "vec/step", "ob_vec", {"part": "step"}, GROUPS, timeout=to, weight=5)
     # the same step with the walker's branches explored path by path (forking) instead of merged
     split(obs, "vec/step-forked", "ob_vec", {"part": "step", "fork_ifs": True}, GROUPS[1:], timeout=to, weight=5, fork=True, max_paths=32)
